@@ -1,7 +1,7 @@
 (* Run.v — entry point used by the extracted driver and by the in-Coq
    cross-check: one case (as written by the harness) and the implementation's
    observation in, the model's observation and the spec verdicts out. *)
-From Model Require Import Str Sexp Http Cors Template Table Curly DetectRoute Jsr311 Router Options Dispatch Response Pool.
+From Model Require Import Str Sexp Http Cors Template Table Curly DetectRoute Jsr311 Router Options Dispatch Response Pool Registry.
 From Spec Require Import CorsSpec RouteSpec RankSpec DispatchSpec.
 
 Definition verdict (name : string) (b : bool) : sexp := Lst [A (L name); of_bool b].
@@ -579,6 +579,54 @@ Definition run_mut (c impl : sexp) : sexp :=
         A (L (if Z.eqb (sx_int (sx_nth 1 c)) 0 then "curly" else "jsr311")%string);
         Lst [ verdict "via_servehttp" (negb (Z.eqb (sx_int (sx_nth 2 c)) 0)) ] ].
 
+(* ---- domain "reg" (C11) ----
+   case: (oracles router ops probes); impl: (failed-op history-answers fresh-answers fresh-failed) *)
+Definition reg_answer_obs (a : reg_answer) : sexp :=
+  match a with
+  | GRedirect loc => Lst [I 301; I 0; A loc]
+  | GPlain id => Lst [I 200; I id; A []]
+  | GMux404 => Lst [I 404; I 0; A []]
+  | GRouted (RInvoke _ r _) => Lst [I 200; I (r_id r); A []]
+  | GRouted (RError E404) => Lst [I 404; I 0; A []]
+  | GRouted (RError (E405 _)) => Lst [I 405; I 0; A []]
+  | GRouted (RError E415) => Lst [I 415; I 0; A []]
+  | GRouted (RError E406) => Lst [I 406; I 0; A []]
+  | GRouted RPanic => Lst [I (-1); I 0; A []]
+  end%Z.
+
+(* the premises of Props.C11 for a history: the roots it adds and the patterns it hands to Handle form a
+   compatible universe, no root is added while registered, no plain pattern twice (RegistrySpec) *)
+Definition reg_premises (ops : list regop) : bool :=
+  let roots := flat_map (fun o => match o with RAdd r _ => [norm_root r] | _ => [] end) ops in
+  let plainU := flat_map (fun o => match o with RHandle p _ => [p] | _ => [] end) ops in
+  forallb (plain_compatible roots) plainU && reg_ops_ok roots plainU cs_init ops.
+
+Definition run_reg (c impl : sexp) : sexp :=
+  let O := sx_oracles (sx_nth 0 c) in
+  let rt := if Z.eqb (sx_int (sx_nth 1 c)) 0 then Curly else Jsr311 in
+  let ops := map sx_rop_reg (sx_list (sx_nth 2 c)) in
+  let probes := sx_list (sx_nth 3 c) in
+  let '(s, fail) := cs_run cs_init ops 0 in
+  let '(sf, ffail) := cs_fresh s in
+  let ask st p :=
+      let req := {| rq_method := sx_str (sx_nth 1 p); rq_path := sx_str (sx_nth 2 p); rq_headers := []; rq_clen := 0 |} in
+      reg_answer_obs (if Z.eqb (sx_int (sx_nth 0 p)) 0 then serve_dispatch O rt st req else serve_http O rt st req) in
+  let m_obs := Lst [ I (match fail with Some (k, _) => Z.of_nat k | None => (-1)%Z end);
+                     Lst (map (ask s) probes); Lst (map (ask sf) probes);
+                     I (match ffail with Some _ => 1 | None => 0 end)%Z ] in
+  let i_failed := sx_int (sx_nth 0 impl) in
+  let same := sexp_eqb (sx_nth 1 impl) (sx_nth 2 impl) in
+  let cls := (if negb (Z.eqb i_failed (-1)) then "operation-failed"
+              else if existsb (fun o => match o with RRemove _ => true | _ => false end) ops then "with-remove"
+              else "adds-only")%string in
+  Lst [ m_obs;
+        Lst [ verdict "c11_add_never_panics" (Z.eqb i_failed (-1) && Z.eqb (sx_int (sx_nth 3 impl)) 0);
+              verdict "c11_same_as_fresh" same ];
+        A (L cls);
+        Lst [ verdict "premises_of_C11" (reg_premises ops);
+              verdict "has_plain_handler" (existsb (fun o => match o with RHandle _ _ => true | _ => false end) ops);
+              verdict "has_route_change" (existsb (fun o => match o with RRoute _ _ | RRemoveRoute _ _ _ => true | _ => false end) ops) ] ].
+
 Definition run_case (c impl : sexp) : sexp :=
   let dom := sx_str (sx_nth 0 c) in
   if str_eqb dom (L "cors") then run_cors (sx_nth 1 c) impl
@@ -591,4 +639,5 @@ Definition run_case (c impl : sexp) : sexp :=
   else if str_eqb dom (L "resp") then run_resp (sx_nth 1 c) impl
   else if str_eqb dom (L "pool") then run_pool (sx_nth 1 c) impl
   else if str_eqb dom (L "mut") then run_mut (sx_nth 1 c) impl
+  else if str_eqb dom (L "reg") then run_reg (sx_nth 1 c) impl
   else Lst [A (L "unknown-domain")].
